@@ -37,7 +37,8 @@ MUTANTS = [
     ("literal_cache_key", I + "morphing/generic_provider.py", "            case_types=tuple(type(arg) for arg in norm.args),  # since (0, 1) == (False, True)\n", "            case_types=(),\n", ["C11", "C02"]),
     ("merge_map_flipped", I + "morphing/name_layout/component.py", "        return new + old", "        return old + new", ["C03"]),
     ("skip_only_inverted", I + "morphing/name_layout/component.py", "                not apply_lsc(mediator, request, schema.skip, field)\n                and apply_lsc(mediator, request, schema.only, field)", "                apply_lsc(mediator, request, schema.only, field)\n                or not apply_lsc(mediator, request, schema.skip, field)", ["C03"]),
-    ("sieve_is_not", I + "morphing/name_layout/component.py", "lambda obj, value: value != default_value)", "lambda obj, value: value is not default_value)", ["C03"]),
+    ("sieve_is_not", I + "morphing/model/dumper_gen.py", "                    f\"{input_expr} != {literal_expr}\"\n                )\n            v_default", "                    f\"{input_expr} is not {literal_expr}\"\n                )\n            v_default", ["C03"]),
+    ("sieve_dumped_value", I + "morphing/model/dumper_gen.py", "        condition = self._get_sieve_condition(state, sieve, key, raw_expr)", "        condition = self._get_sieve_condition(state, sieve, key, element_expr.expr)", ["C03"]),
     ("trim_all_underscores", I + "morphing/name_layout/component.py", "and not name.endswith(\"__\"):", "and True:", ["C03"]),
     ("extra_hoisted", I + "morphing/model/loader_gen.py", "                state.builder += f\"{state.v_extra} = {{}}\"", "                state.namespace.add_constant(state.v_extra + '_c', {})\n                state.builder += f\"{state.v_extra} = {state.v_extra}_c\"", ["C20", "C03"]),
     ("extra_collect_copies_known", I + "morphing/model/loader_gen.py", "                        for key in set({state.v_data}) - {state.v_known_keys}:", "                        for key in set({state.v_data}):", ["C03"]),
